@@ -93,23 +93,6 @@ var mclasses = []mclass{
 		},
 	},
 	{
-		name:  "hist-no-buckets",
-		setup: func(g *G) { g.histNoBuckets = true },
-		detrigger: func(t Metrics) Metrics {
-			return forPointsM(t, func(m *Met, p *Pt) {
-				if m.Type == MHist && len(p.Buckets) == 0 {
-					p.Buckets = []uint64{0}
-				}
-			})
-		},
-		sig: func(c, f string, _ [4]verdict) string {
-			if f == "error-w" {
-				return "histogram-no-buckets-rejected"
-			}
-			return ""
-		},
-	},
-	{
 		// not a converter defect: with RestartDictionaries every Write restarts the frame and resets the
 		// dictionaries; a shared (frozen) resource/scope/metric that comes back is then re-encoded without
 		// the entries of its nested maps. Only the sorted converter shares structs by pointer.
